@@ -2025,8 +2025,20 @@ impl Feeflow {
             }
             "claim" => {
                 // the lair's answers for exactly the queries `claim` is going to make
-                rec.push(format!("@sh={}", w.shares_for(&sa)));
-                exec(&mut w.app, &sa, &w.dist.clone(), &fd::ExecuteMsg::Claim {}, xf)
+                let sh = w.shares_for(&sa);
+                let above_one = sh.split(',').any(|t| t.split(':').nth(1).and_then(|x| x.parse::<u128>().ok()).map_or(false, |x| x > 1_000_000_000_000_000_000));
+                rec.push(format!("@sh={sh}"));
+                let o = exec(&mut w.app, &sa, &w.dist.clone(), &fd::ExecuteMsg::Claim {}, xf);
+                if above_one {
+                    // the lair answered a share above one for an epoch of the window (top-ups): the reward may
+                    // exceed what is left of that epoch, and the claim then has to fail as a whole
+                    mon.stat(match &o {
+                        Outcome::Ok(_) => "claim_with_share_above_one_ok",
+                        Outcome::Err(_) => "claim_with_share_above_one_refused",
+                        Outcome::Panic => "claim_with_share_above_one_panic",
+                    });
+                }
+                o
             }
             "bond" | "unbond" => {
                 let (Some(d), Some(a)) = (pn(args.first()), pn(args.get(1))) else { return ("bad-op".into(), vec![]) };
@@ -4122,10 +4134,25 @@ impl Feeflow {
                 format!("u{} claim", rng.below(NUSERS as u64))
             }
         } else if k < 69 {
-            let amt = match rng.below(4) {
-                0 => rng.range(1, 1000) as u128,
-                1 => 1_000_000,
-                _ => rng.log_uniform(40),
+            // `topup`: an address that is already bonded adds a multiple of everything bonded so far. The lair
+            // credits the NEW amount for the time since the address's last update but the global index only
+            // since its own last update, so the address's share of the next epochs exceeds one: the claim the
+            // distributor has to refuse (reward > what is left of the epoch) instead of paying it out of the
+            // funds of other epochs (seeded change C09-D, missed by eight unlucky shard seeds)
+            let bonded_users: Vec<u64> = (0..4u64).filter(|i| w.bond_start[*i as usize].is_some()).collect();
+            let global: u128 = w
+                .app
+                .wrap()
+                .query_wasm_smart::<wl::GlobalIndex>(&w.lair, &wl::QueryMsg::GlobalIndex {})
+                .map(|g| g.bonded_amount.u128())
+                .unwrap_or(0);
+            let (u, amt) = match rng.below(6) {
+                0 => (u, rng.range(1, 1000) as u128),
+                1 => (u, 1_000_000),
+                2 | 3 if !bonded_users.is_empty() && global > 0 && global < 1u128 << 90 => {
+                    (*rng.pick(&bonded_users), global.saturating_mul(1 + rng.below(64) as u128))
+                }
+                _ => (u, rng.log_uniform(40)),
             };
             format!("u{u} bond {} {amt}", rng.below(2))
         } else if k < 75 {
